@@ -1,6 +1,7 @@
 (* C13 — the model passes its own oracle on every case; Prop reading of the oracle. *)
 From Coq Require Import List ZArith Bool Lia.
-From RD Require Import C13.Sched C13.ModelA C13.ModelD C13.Model C13.ProofsA C13.ProofsD.
+From RD Require Import C13.Sched C13.ModelA C13.ModelB C13.ModelC C13.ModelD C13.Model.
+From RD Require Import C13.ProofsA C13.ProofsB C13.ProofsC C13.ProofsD C13.ProofsS.
 Import ListNotations.
 Open Scope Z_scope.
 
@@ -22,7 +23,7 @@ Qed.
 
 Lemma run_ok : forall c, ok c (run c) = true.
 Proof.
-  intros c. apply ok_spec. intros W. destruct c as [n l | cap q0 l]; simpl in *.
+  intros c. apply ok_spec. intros W. destruct c as [n l | cap q0 l | cap n l | n cap l | v n c06 l]; simpl in *.
   - apply Z.leb_le in W. intros Q.
     pose proof (ProofsA.quiescent_all_taken n _ W Q) as T.
     unfold A.quiescent, A.producer_done in Q. apply andb_true_iff in Q as [Q _].
@@ -31,4 +32,15 @@ Proof.
   - apply andb_true_iff in W as [W W3]. apply andb_true_iff in W as [W1 W2].
     apply Z.leb_le in W1, W2, W3. intros Q.
     rewrite (ProofsD.quiescent_complete cap q0 _ W1 (conj W2 W3) Q). split; reflexivity.
+  - apply andb_true_iff in W as [W1 W2]. apply Z.leb_le in W1, W2. intros Q.
+    rewrite (ProofsC.quiescent_all_sent cap n _ W1 W2 Q). split; lia.
+  - apply andb_true_iff in W as [W1 W2]. apply Z.leb_le in W1, W2. intros Q.
+    destruct (ProofsS.quiescent_all_delivered n cap _ W1 W2 Q) as [D Ch]. split; assumption.
+  - apply andb_true_iff in W as [W1 W2]. apply Z.leb_le in W1, W2. intros Q.
+    assert (PC : 1 <= PCAP) by (unfold PCAP; lia).
+    match type of Q with B.quiescent (B.exec _ _ _ _ ?L) = true => set (LL := L) in * end.
+    destruct (ProofsB.quiescent_all_delivered v n PCAP c06 LL W1 PC W2 Q) as [D T].
+    destruct (ProofsB.inv_exec v n PCAP c06 LL W1 PC W2) as [R _ _ _ _ _ _].
+    pose proof (ProofsB.n_const v n PCAP c06 LL) as N.
+    split; [lia|exact D].
 Qed.
